@@ -9,6 +9,7 @@ import (
 	"errors"
 	"fmt"
 	"net"
+	"reflect"
 	"sort"
 	"strings"
 	"testing"
@@ -16,6 +17,7 @@ import (
 	"verif.local/engine/enum"
 	"verif.local/engine/evidence"
 	"verif.local/engine/vnet"
+	"verif.local/engine/vpriv"
 	"verif.local/engine/xstate"
 )
 
@@ -172,13 +174,32 @@ func (s *c20Sys) metaName(m PunchMetadata) string {
 	return "?" + m.Nonce + "/" + m.Obfs
 }
 
-func (s *c20Sys) realRegistry() string {
+// c20PrivUnreadable: private state of PunchPacketConn the harness could not read by name (field
+// renamed or retyped by a refactor): the extra oracle/key component that used it is skipped and
+// the evidence says so.
+var c20PrivUnreadable = map[string]bool{}
+
+// realRegistry reads the private id -> metadata registry (field "attempts", a map) by name.
+func (s *c20Sys) realRegistry() (string, bool) {
+	v, ok := vpriv.Field(s.pc, "attempts")
+	if !ok || v.Kind() != reflect.Map || v.Type().Key().Kind() != reflect.String || v.Type().Elem() != reflect.TypeOf(PunchMetadata{}) {
+		c20PrivUnreadable["attempts (map[string]PunchMetadata)"] = true
+		return "", false
+	}
 	var parts []string
-	for id, m := range s.pc.attempts {
-		parts = append(parts, id+"="+s.metaName(m))
+	for _, k := range v.MapKeys() {
+		parts = append(parts, k.String()+"="+s.metaName(v.MapIndex(k).Interface().(PunchMetadata)))
 	}
 	sort.Strings(parts)
-	return strings.Join(parts, ",")
+	return strings.Join(parts, ","), true
+}
+
+func (s *c20Sys) privLen(name string) int {
+	n := vpriv.Len(s.pc, name)
+	if n < 0 {
+		c20PrivUnreadable[name+" (channel)"] = true
+	}
+	return n
 }
 
 func (s *c20Sys) modelRegistry() string {
@@ -201,7 +222,11 @@ func (s *c20Sys) Key() string {
 		rem = append(rem, id)
 	}
 	sort.Strings(rem)
-	return fmt.Sprintf("reg[%s] ev=%d stun=%d removed[%s] read=%v", s.realRegistry(), len(s.pc.events), len(s.pc.stun), strings.Join(rem, ","), s.read)
+	reg, ok := s.realRegistry()
+	if !ok {
+		reg = "model:" + s.modelRegistry()
+	}
+	return fmt.Sprintf("reg[%s] ev=%d stun=%d removed[%s] read=%v", reg, s.privLen("events"), s.privLen("stun"), strings.Join(rem, ","), s.read)
 }
 
 func (s *c20Sys) Apply(op c20Op) (err error) {
@@ -231,8 +256,8 @@ func (s *c20Sys) apply(op c20Op) error {
 			return err
 		}
 	}
-	if got, want := s.realRegistry(), s.modelRegistry(); got != want {
-		return fmt.Errorf("registry-differs: private attempts map {%s}, reference {%s}", got, want)
+	if got, ok := s.realRegistry(); ok && got != s.modelRegistry() {
+		return fmt.Errorf("registry-differs: private attempts map {%s}, reference {%s}", got, s.modelRegistry())
 	}
 	return nil
 }
@@ -471,6 +496,14 @@ func c20DemuxEnumerate(sh *evidence.Shard) {
 			} else {
 				part.Note("depth bound %d reached before the graph closed", depth)
 			}
+		}
+		if len(c20PrivUnreadable) > 0 {
+			var ns []string
+			for n := range c20PrivUnreadable {
+				ns = append(ns, n)
+			}
+			sort.Strings(ns)
+			part.Note("private state not readable by name on this tree (%s): the registry-differs oracle and that component of the state key were replaced by the reference model's registry; equal-key/equal-future probing and all delivery oracles still ran", strings.Join(ns, "; "))
 		}
 		if probeErr != nil {
 			// an oracle failure inside the look-ahead is the concrete (replayable) form of whatever
